@@ -345,26 +345,67 @@ def extract_omen_scorer():
 
 def extract_writer():
     """calculate_and_save_counter writes str(item[0]) + '\\t' + str(item[1]) + '\\n'."""
+    # Accepted spellings of the same text (any mixture): concatenation with +, an f-string;
+    # a field as str(x) or {x} / {x!s} (format(x, '') is str(x) for str, int and float);
+    # x as item[k] of the loop variable or as the k-th name of a tuple-unpacking loop target.
     fn = _func(_parse("lib_trainer/save_pcfg_data.py"), "calculate_and_save_counter")
+
     def flat(e):
         if isinstance(e, ast.BinOp) and isinstance(e.op, ast.Add):
             return flat(e.left) + flat(e.right)
+        if isinstance(e, ast.JoinedStr):
+            return [p for v in e.values for p in flat(v)]
         return [e]
+
+    def field(e, loop):
+        """e denotes field k of the element the loop iterates over -> k, else None"""
+        t = loop.target
+        if isinstance(e, ast.Subscript) and isinstance(e.value, ast.Name) and isinstance(t, ast.Name) \
+                and e.value.id == t.id and isinstance(e.slice, ast.Constant) and type(e.slice.value) is int:
+            return e.slice.value
+        if isinstance(e, ast.Name) and isinstance(t, ast.Tuple) and all(isinstance(x, ast.Name) for x in t.elts):
+            names = [x.id for x in t.elts]
+            if names.count(e.id) == 1:
+                return names.index(e.id)
+        return None
+
+    def rebinds(loop):
+        """the loop body assigns one of the loop's target names"""
+        names = {x.id for x in ast.walk(loop.target) if isinstance(x, ast.Name)}
+        for st in loop.body:
+            for n in ast.walk(st):
+                if isinstance(n, ast.Name) and n.id in names and not isinstance(n.ctx, ast.Load):
+                    return True
+        return False
+
     shapes = []
+    loops = [n for n in ast.walk(fn) if isinstance(n, ast.For)]
     for n in ast.walk(fn):
         if isinstance(n, ast.Call) and isinstance(n.func, ast.Attribute) and n.func.attr == "write":
-            if len(n.args) != 1:
+            if len(n.args) != 1 or n.keywords:
                 raise ExtractError("calculate_and_save_counter: write with %d arguments" % len(n.args))
+            inside = [lp for lp in loops if any(n is m for st in lp.body for m in ast.walk(st))]
+            if len(inside) != 1 or rebinds(inside[0]):
+                raise ExtractError("calculate_and_save_counter: the write is not inside exactly one plain for loop")
+            loop = inside[0]
             shape = []
             for e in flat(n.args[0]):
                 if isinstance(e, ast.Constant) and isinstance(e.value, str):
-                    shape.append(e.value)
-                elif isinstance(e, ast.Call) and isinstance(e.func, ast.Name) and e.func.id == "str" and len(e.args) == 1 \
-                        and isinstance(e.args[0], ast.Subscript) and isinstance(e.args[0].value, ast.Name) \
-                        and e.args[0].value.id == "item" and isinstance(e.args[0].slice, ast.Constant):
-                    shape.append(("str", e.args[0].slice.value))
-                else:
+                    if shape and isinstance(shape[-1], str):
+                        shape[-1] += e.value
+                    else:
+                        shape.append(e.value)
+                    continue
+                inner = None
+                if isinstance(e, ast.Call) and isinstance(e.func, ast.Name) and e.func.id == "str" and len(e.args) == 1 \
+                        and not e.keywords:
+                    inner = e.args[0]
+                elif isinstance(e, ast.FormattedValue) and e.format_spec is None and e.conversion in (-1, 115):
+                    inner = e.value
+                k = field(inner, loop) if inner is not None else None
+                if k is None:
                     raise ExtractError("calculate_and_save_counter: unexpected operand %s" % ast.dump(e)[:120])
+                shape.append(("str", k))
             shapes.append(shape)
     if shapes != [[("str", 0), "\t", ("str", 1), "\n"]]:
         raise ExtractError("calculate_and_save_counter: unexpected line format %r" % shapes)
